@@ -42,6 +42,13 @@ def histories(rng, L, tier):
         for n, k in ((2, 5), (3, 5), (4, 4)):
             out += [[rng.choice(pool) for _ in range(n)] for _ in range(k)]
         out += [mlib.rand_history(rng, L) for _ in range(17)]
+    if L['modal']:
+        # long chains and zig-zags: the closure needs several passes (and finish() may enforce more than once)
+        chain = lambda n_: [['access', k_, k_ + 1] for k_ in range(n_)]
+        out.append(chain(3) + [['atomic', 3, 0, L['values'][0]]])
+        out.append(chain(7) + [['atomic', 7, 0, L['values'][0]], ['atomic', 0, 0, L['values'][-1]]])
+        out.append([['access', 0, 1], ['access', 2, 1], ['access', 2, 3], ['atomic', 3, 0, L['values'][0]]])
+        out.append([['access', 5, 6], ['access', 3, 4], ['access', 1, 2], ['access', 4, 5], ['access', 2, 3], ['access', 0, 1]])
     if L['hooks']['finish'] == 'cpl':
         c, I, F1 = mlib.c, 'I', mlib.F1
         out.append([['pred', 0, I, [c(0), c(1)], 'T']])
